@@ -78,6 +78,7 @@ class BusProtocol (txdbus.protocol.BasicDBusProtocol):
 
             else:
                 self.transport.loseConnection()
+                return
 
         msg.sender = self.uniqueName
 
